@@ -152,7 +152,8 @@ def gen_one(rng, i, tier):
             "ts": ts, "rs": rs,
             # a second construction with NaN scores mixed in (a NaN sorts last and compares False with everything, so a
             # range check that looks at the ends of the sorted array, or at min/max, is blinded by it)
-            "nanvar": rng.choice(["g", "f", "both"]) if rng.random() < 0.3 else None}
+            "nanvar": rng.choice(["g", "f", "both"]) if rng.random() < 0.3 else None,
+            "presorted": rng.random() < 0.4}
 
 
 def _outside(inp):
@@ -329,7 +330,14 @@ def build(inp) -> Case:
         ctor_line = dict(via="labels", lab=il([1 if b else 0 for b in flags]), sco=ql(scos))
         how = f"FraudScores.from_labels(genuine_label={sch['g']!r}, labels kind={sch['kind']})"
     else:
-        res = common.call(FraudScores, genuines=container(g, npdt), frauds=container(f, npdt), **kw)
+        g_arg, f_arg = container(g, npdt), container(f, npdt)
+        if inp.get("presorted") and isinstance(g_arg, np.ndarray):
+            g_arg, f_arg = np.sort(g_arg), np.sort(f_arg)  # already ascending input (the object must still hold its own copies)
+        res = common.call(FraudScores, genuines=g_arg, frauds=f_arg, **kw)
+        # the caller's arrays stay the caller's: scrambling them in place after construction must not reach the object
+        for a_ in (g_arg, f_arg):
+            if isinstance(a_, np.ndarray) and a_.size > 1 and a_.flags.writeable:
+                a_[:] = a_[::-1].copy()
         mg, mf = g, f
         ctor_line = dict(via="ctor", g=ql(g), f=ql(f))
         how = "FraudScores(genuines=..., frauds=...)"
